@@ -8,7 +8,7 @@ package cli
 // is enumerated exhaustively (the statement's own quantifier).
 
 var c02Letters = map[byte]string{'c': "csv", 't': "tsv", 'j': "json", 'l': "jsonl", 'd': "dkvp", 'n': "nidx",
-	'x': "xtab", 'p': "pprint", 'b': "pprint", 'm': "markdown"}
+	'x': "xtab", 'p': "pprint", 'b': "pprint", 'm': "markdown", 'y': "yaml"}
 
 func c02ParseOne(args []string) (*TOptions, bool) {
 	o := DefaultOptions()
@@ -36,6 +36,7 @@ type c02Canon struct {
 	repifs, ifsRegex   bool
 	ofs, ops, ors      string
 	wrap, multi, barred bool
+	yamlWrap            bool
 }
 
 func c02Canonical(o *TOptions) c02Canon {
@@ -68,12 +69,13 @@ func c02Canonical(o *TOptions) c02Canon {
 		c.ors = w.ORS
 	}
 	c.barred = w.BarredPprintOutput && c.ofmt == "pprint"
+	c.yamlWrap = w.WrapYAMLOutputInOuterList && c.ofmt == "yaml"
 	return c
 }
 
 func c02AssertSame(a, b c02Canon, what string) {
 	verifAssert(a.ifmt == b.ifmt, "C02/"+what+"/same-reader")
-	verifAssert(a.ofmt == b.ofmt && a.wrap == b.wrap && a.multi == b.multi && a.barred == b.barred, "C02/"+what+"/same-writer")
+	verifAssert(a.ofmt == b.ofmt && a.wrap == b.wrap && a.multi == b.multi && a.barred == b.barred && a.yamlWrap == b.yamlWrap, "C02/"+what+"/same-writer")
 	verifAssert(a.ifs == b.ifs && a.ips == b.ips && a.irs == b.irs && a.repifs == b.repifs && a.ifsRegex == b.ifsRegex,
 		"C02/"+what+"/same-input-separators")
 	verifAssert(a.ofs == b.ofs && a.ops == b.ops && a.ors == b.ors, "C02/"+what+"/same-output-separators")
@@ -81,8 +83,8 @@ func c02AssertSame(a, b c02Canon, what string) {
 
 // every --X2Y keystroke-saver of the real table against "--i<X> --o<Y>" (+ --barred-output for 2b)
 func VerifC02_keystroke_savers() {
-	ins := "ctjldnxpm"
-	outs := "ctjldnxpbm"
+	ins := "ctjldnxpmy"
+	outs := "ctjldnxpbmy"
 	x := ins[verifChoice("in", len(ins))]
 	y := outs[verifChoice("out", len(outs))]
 	name := "--" + string([]byte{x}) + "2" + string([]byte{y})
